@@ -227,6 +227,22 @@ func Open(dir string, opts ...walOpt) (*WAL, error) {
 	// don't need to jump through the mutateState hoops yet!
 	w.s.Store(&newState)
 
+	// If the tail we recovered is already sealed then we crashed (or were
+	// closed) after the final append filled it but before the background
+	// rotation committed the new tail to meta data. Complete that rotation now
+	// otherwise every future append would fail with ErrSealed.
+	if recoveredTail {
+		sealed, indexStart, err := newState.tail.Sealed()
+		if err != nil {
+			return nil, err
+		}
+		if sealed {
+			if err := w.rotateSegmentLocked(indexStart); err != nil {
+				return nil, err
+			}
+		}
+	}
+
 	// Delete any unused segment files left over after a crash.
 	w.deleteSegments(toDelete)
 
